@@ -8,7 +8,8 @@ mkdir -p "$OUT"
 TAG=${TRIAL_TAG:-}; TR=/root/scratch/trial_repo$TAG; TV=/root/scratch/trial_verif$TAG
 git -C /repo worktree remove --force $TR >/dev/null 2>&1; rm -rf $TR
 git -C /repo worktree add --detach $TR HEAD >/dev/null 2>&1 || exit 2
-git -C $TR apply "$PATCH" || { echo "patch does not apply"; exit 2; }
+git -C $TR apply -v "$PATCH" > "$OUT/apply.log" 2>&1 || { echo "patch does not apply"; exit 2; }
+grep -q "offset" "$OUT/apply.log" && echo "NOTE: $(grep offset "$OUT/apply.log" | head -1) - check that the hunk landed on the intended (active cfg) code" | tee "$OUT/apply_note.txt"
 mkdir -p $TV && rsync -a --delete --exclude .git --exclude build/work --exclude replays /verif/ $TV/
 cd $TV
 for P in "$@"; do
